@@ -68,7 +68,7 @@ def discharge(ob, tier, timeout, extra=()):
     order = SOLVER_ORDER[ob.meta.get('theory', 'default')]
     if ob.goal.is_const and ob.goal.val is False and ob.kind == 'U':
         return dict(verdict='unsupported', solver=None, seconds=0.0, log=[])
-    asserts = ob.hyps + list(extra) + [tm.mk_not(ob.goal)]
+    asserts = inst_hyps(ob) + list(extra) + [tm.mk_not(ob.goal)]
     if tier == 'thorough' and ob.kind != 'canary':
         res = None
         logs = []
@@ -88,6 +88,14 @@ def discharge(ob, tier, timeout, extra=()):
     return dict(verdict=r['verdict'], solver=r['solver'], seconds=r['seconds'], log=r['log'])
 
 
+def inst_hyps(ob):
+    """Hypotheses with callee-contract foralls instantiated at the goal's skolem witnesses."""
+    w = ob.meta.get('witnesses') or []
+    if not w:
+        return list(ob.hyps)
+    return [tm.instantiate_foralls(h, w) if tm.has_quantifier(h) else h for h in ob.hyps]
+
+
 def counterexample(con, ob, extra=(), tries=4):
     """Try to turn a refuted obligation into concrete arguments on which the contract fails
     natively.  -> (status, cargs, native_result, solver_output)"""
@@ -97,7 +105,7 @@ def counterexample(con, ob, extra=(), tries=4):
     last_out = ''
     clause = ob.meta.get('clause')
     for _ in range(tries):
-        env, r = C.model_env(ob.hyps + list(extra) + [tm.mk_not(ob.goal)] + block, extra_vars=ivars,
+        env, r = C.model_env(inst_hyps(ob) + list(extra) + [tm.mk_not(ob.goal)] + block, extra_vars=ivars,
                              solvers=('z3', 'cvc5f', 'cvc5'), timeout=10.0)
         last_out = r.get('output', '')[:4000]
         if env is None:
@@ -154,7 +162,11 @@ def verify_task(payload):
     out['paths'] = len(recs)
     out['explore_s'] = round(time.time() - t0, 2)
     timeout = getattr(con, 'timeout', 10.0) * (2 if tier == 'thorough' else 1)
-    regions = {k['id']: k for k in known if k.get('contract') == cname}
+    regions = {}
+    for k in known:
+        for site in k.get('sites', []):
+            if site.get('contract') == cname:
+                regions.setdefault(k['id'], dict(k, clause=site['clause']))
     # discharge (threads: the work is in solver subprocesses)
     with cf.ThreadPoolExecutor(max_workers=getattr(con, 'threads', 4)) as pool:
         futs = {pool.submit(discharge, ob, tier, timeout): ob for ob in obs}
@@ -310,9 +322,16 @@ def run_tables(mod, prop):
 
 # ---------------------------------------------------------------------------------------
 
+_CLEARED = set()
+
+
 def write_replay(prop, viol):
     d = os.path.join(ROOT, 'replays', prop)
     os.makedirs(d, exist_ok=True)
+    if prop not in _CLEARED:
+        _CLEARED.add(prop)
+        for fn in glob.glob(os.path.join(d, '*.json')):
+            os.remove(fn)
     safe = ''.join(ch if ch.isalnum() or ch in '._-' else '_' for ch in viol['obligation'])[:120]
     p = os.path.join(d, safe + '.json')
     with open(p, 'w') as f:
